@@ -52,11 +52,11 @@ func c24Key(i int) *sr25519.Keypair {
 }
 
 // c24AuthKey: which key authority i holds.
-func c24AuthKey(i int, dup int) *sr25519.Keypair {
+func c24AuthKey(i int, dup int, koff int) *sr25519.Keypair {
 	if dup == 1 && i == 1 {
-		return c24Key(0)
+		return c24Key(koff % 8)
 	}
-	return c24Key(i)
+	return c24Key((koff + i) % 8)
 }
 
 type c24Epoch struct {
@@ -94,6 +94,11 @@ type c24Case struct {
 	idx                                uint32
 	vsigner, vrfT, sealer, sealT       int
 	shape, eng, dup                    int
+	// manager cases: authority i holds key (koff+i)%8; the header hangs under a given parent
+	koff      int
+	hasParent bool
+	parent    common.Hash
+	number    uint
 	oAttach, oBelow, oVrf, oSeal       int
 }
 
@@ -135,7 +140,7 @@ func c24Randomness(rb byte) Randomness {
 func (c *c24Case) authorities() []types.AuthorityRaw {
 	auths := make([]types.AuthorityRaw, c.n)
 	for i := range auths {
-		auths[i] = *types.NewAuthority(c24AuthKey(i, c.dup).Public(), 1).ToRaw()
+		auths[i] = *types.NewAuthority(c24AuthKey(i, c.dup, c.koff).Public(), 1).ToRaw()
 	}
 	return auths
 }
@@ -207,6 +212,9 @@ func (c *c24Case) header() *types.Header {
 	h := types.NewEmptyHeader()
 	h.Number = uint(c.slot%1000) + 1
 	h.ParentHash = common.Hash{c.rb, byte(c.slot), 1}
+	if c.hasParent {
+		h.Number, h.ParentHash = c.number, c.parent
+	}
 	h.StateRoot = common.Hash{2, byte(c.idx)}
 	h.ExtrinsicsRoot = common.Hash{3}
 	preEng, sealEng := types.BabeEngineID, types.BabeEngineID
@@ -293,7 +301,7 @@ func (c *c24Case) oracles() {
 	if int(c.idx) >= c.n || c.c1 == 0 || c.c2 == 0 || c.c1 > c.c2 {
 		return
 	}
-	pk := c24AuthKey(int(c.idx), c.dup).Public().(*sr25519.PublicKey)
+	pk := c24AuthKey(int(c.idx), c.dup, c.koff).Public().(*sr25519.PublicKey)
 	if c.kind == 1 || c.kind == 3 {
 		out, proof := c.vrf()
 		rnd := c24Randomness(c.rb)
@@ -377,6 +385,8 @@ func c24Run(line string) string {
 		return "bad-op"
 	}
 	switch f[0] {
+	case "mgr":
+		return c24RunMgr(line)
 	case "v":
 		c, ok := c24Parse(f)
 		if !ok {
@@ -492,6 +502,9 @@ func c24Cfg(r *vhRng, c *c24Case) {
 func c24Gen(r *vhRng) string {
 	if r.Chance(1, 8) {
 		return c24GenOwn(r)
+	}
+	if r.Chance(1, 5) {
+		return c24GenMgr(r)
 	}
 	c := &c24Case{}
 	c24Cfg(r, c)
